@@ -644,3 +644,88 @@ func VH10e_churn() {
 	verif.Assert(core.ZZSocketPipes(sock) == 0, lab+"/socket-still-tracks-pipes")
 	verif.Reach("churn-census")
 }
+
+// VH10f_many_endpoints: one socket with D (4) dialers -- some to present, some
+// to absent peers, so that connections and redial timers both exist -- and L
+// (3) listeners with a connection each. One dialer and/or one listener at any
+// position is closed first (every combination a path), then the socket. The
+// closed endpoint stops at once; after the socket's Close none of the others is
+// forgotten: no dialer tries again, no listening address stays bound, no
+// connection, goroutine, timer or pipe id is left.
+func VH10f_many_endpoints() {
+	D := verif.Param("D", 4)
+	L := verif.Param("L", 3)
+	protos := []string{"bus", "pair", "req"}
+	proto := protos[verif.Choice("proto", len(protos))]
+	lab := "C10/" + proto + "/many-endpoints"
+	sock := vp.New(proto)
+	vt.Install()
+	verif.Assert(sock.SetOption(mangos.OptionDialAsynch, true) == nil, lab+"/asynch")
+	verif.Assert(sock.SetOption(mangos.OptionReconnectTime, 100*time.Millisecond) == nil, lab+"/reconnect")
+	var ds []mangos.Dialer
+	for i := 0; i < D; i++ {
+		addr := "vt://peer" + string(rune('0'+i))
+		if i%2 == 1 {
+			addr = "vt://nobody" + string(rune('0'+i)) // absent: this dialer lives on its redial timer
+		}
+		d, err := sock.NewDialer(addr, nil)
+		verif.Assert(err == nil && d.Dial() == nil, lab+"/dial")
+		if err != nil {
+			return
+		}
+		ds = append(ds, d)
+	}
+	var ls []mangos.Listener
+	var tps []*vt.Pipe
+	for i := 0; i < L; i++ {
+		l, err := sock.NewListener("vt://l"+string(rune('0'+i)), nil)
+		verif.Assert(err == nil && l.Listen() == nil, lab+"/listen")
+		if err != nil {
+			return
+		}
+		ls = append(ls, l)
+		tps = append(tps, vt.T.Listeners["l"+string(rune('0'+i))].Connect("c"+string(rune('0'+i))))
+	}
+	verif.Quiesce()
+	cd := verif.Choice("close-dialer", D+1) - 1
+	cl := verif.Choice("close-listener", L+1) - 1
+	if cd >= 0 {
+		verif.Assert(ds[cd].Close() == nil, lab+"/dialer-close")
+		td := vt.T.Dialers[cd]
+		n := len(td.Dials)
+		verif.FireTimer()
+		verif.Assert(len(td.Dials) == n, lab+"/connection-attempt-by-a-closed-dialer")
+	}
+	if cl >= 0 {
+		verif.Assert(ls[cl].Close() == nil, lab+"/listener-close")
+		verif.Assert(vt.T.Listeners["l"+string(rune('0'+cl))] == nil, lab+"/listening-address-left-after-listener-close")
+	}
+	verif.Assert(sock.Close() == nil, lab+"/close")
+	verif.Quiesce()
+	verif.Assert(verif.PendingCallbackTimers() == 0, lab+"/stoppable-timer-still-armed-after-close")
+	dials := 0
+	for _, d := range vt.T.Dialers {
+		dials += len(d.Dials)
+	}
+	for i := 0; i < 4; i++ {
+		verif.FireTimer()
+	}
+	verif.Quiesce()
+	after := 0
+	for _, d := range vt.T.Dialers {
+		after += len(d.Dials)
+		for _, p := range d.Pipes {
+			verif.Assert(p.Closed, lab+"/dialed-connection-left-open-after-close")
+		}
+	}
+	verif.Assert(after == dials, lab+"/connection-attempt-started-after-close")
+	verif.Assert(verif.LiveGoroutines() == 0, lab+"/goroutines-left-after-close")
+	verif.Assert(verif.PendingTimers() == 0, lab+"/timers-left-after-close")
+	for _, p := range tps {
+		verif.Assert(p.Closed, lab+"/connection-left-open-after-close")
+	}
+	verif.Assert(len(vt.T.Listeners) == 0, lab+"/listening-address-left-after-close")
+	verif.Assert(core.ZZIDsInUse() == 0, lab+"/pipe-ids-left-after-close")
+	verif.Assert(core.ZZSocketPipes(sock) == 0, lab+"/socket-still-tracks-pipes")
+	verif.Reach("many-endpoints-census")
+}
